@@ -230,6 +230,13 @@ func TestVerifC16(t *testing.T) {
 					Claim: &c16Claim{hx(other), d.M, d.m, d.p, d.M, d.m, d.p}, Group: group, Index: idx}
 				out.emit(in, c16Run(in))
 			}
+			// numeric versions whose components do not fit 64 bits: the handler's major with an astronomically
+			// newer minor, another major, an oversized patch
+			for _, raw := range []string{fmt.Sprintf("/%s/%d.99999999999999999999.0", d.name, d.M), fmt.Sprintf("/%s/%d.18446744073709551616.%d", d.name, d.M, d.p),
+				fmt.Sprintf("/%s/99999999999999999999.%d.%d", d.name, d.m, d.p), fmt.Sprintf("/%s/%d.%d.18446744073709551616", d.name, d.M+1, d.m)} {
+				in := c16In{Incoming: hx(raw), Name: hx(d.name), Version: hx(hv), Group: group, Index: idx, Pre: pre}
+				out.emit(in, c16Run(in))
+			}
 			for _, raw := range []string{"/" + d.name + "/extra/" + hv, "/" + d.name + "/9.9.9/" + hv, "/" + d.name + "//" + hv} {
 				in := c16In{Incoming: hx(raw), Name: hx(d.name), Version: hx(hv), Group: group, Index: idx}
 				out.emit(in, c16Run(in))
@@ -241,6 +248,8 @@ func TestVerifC16(t *testing.T) {
 		"discovery/1.0.0", "/discovery/", "/discovery/abc", "/discovery/1.2.3.4", "/discovery/-1.0.0",
 		"/discovery/99999999999999999999.0.0", "/discovery/1.0.0-rc1", "/discovery/v1.0.0", "/discovery/1",
 		"/discovery/1.0", "/discovery/ 1.0.0", "/discovery/1.0.0 ", "/discovery/\x00", "/discovery/1..0",
+		"/discovery/1.99999999999999999999.0", "/discovery/1.18446744073709551616.0", "/discovery/1.18446744073709551615.0",
+		"/discovery/2.0.18446744073709551616", "/discovery/18446744073709551616.0.0", "/discovery/2.340282366920938463463374607431768211456.1",
 		"/discovery/01.0.0", "/other/1.0.0", "/discovery/1.0.0+meta", "/discovery/1.0.0-", "/discovery/.."}
 	vers := []string{"1.0.0", "2.0.0", "", "x", "1", "v1.0.0", "1.0.0-rc1", "99999999999999999999.0.0"}
 	for _, r := range raws {
